@@ -89,7 +89,7 @@ CATALOGUE: list[tuple] = [
     ("unroll-min-off-by-one", ["C02"], "src/pest/grammar/optimizers/unroller.py", "            return Sequence(*chain(repeat(inner, num), [Repeat(inner)]))", "            return Sequence(*chain(repeat(inner, num - 1), [Repeat(inner)]))", "fire", "RepeatMin"),
     ("repeatmin-init-off-by-one", ["C03", "C04"], POSTFIX, "        self._unrolled = Sequence(*repeat(expression, number), Repeat(expression))", "        self._unrolled = Sequence(*repeat(expression, number + 1), Repeat(expression))", "fire", "RepeatMin"),
     ("pratt-left-assoc-flipped", ["C18"], PRATT, "prec + (0 if right_assoc else 1)", "prec + (1 if right_assoc else 0)", "fire", "parse_expr"),
-    ("pratt-postfix-unconditional", ["C18"], PRATT, "                prec = self.POSTFIX_OPS[next_token.name]\n                if prec < min_prec:\n                    break\n                stream.next()", "                stream.next()", "fire", "parse_expr"),
+    ("pratt-postfix-unconditional", ["C18"], PRATT, "                prec = self.POSTFIX_OPS[next_token.name]\n                if min_prec is not None and prec < min_prec:\n                    break\n                stream.next()", "                stream.next()", "fire", "parse_expr"),
     # ---- behaviour-preserving rewrites: every named check must stay silent
     ("S-choice-rename-locals", ["C01", "C03", "C05", "C08"], CHOICE, "            children: list[Pair] = []\n            matched = expr.parse(state, children)\n\n            if matched:\n                state.ok()\n                pairs.extend(children)\n                return True", "            scratch: list[Pair] = []\n            hit = expr.parse(state, scratch)\n\n            if hit:\n                state.ok()\n                pairs.extend(scratch)\n                return True", "silent", ""),
     ("S-optional-invert-if", ["C03", "C08"], POSTFIX, "        if matched:\n            state.ok()\n            pairs.extend(children)\n            return True\n        state.restore()\n        return True", "        if not matched:\n            state.restore()\n        else:\n            state.ok()\n            pairs.extend(children)\n        return True", "silent", ""),
@@ -123,7 +123,9 @@ CATALOGUE: list[tuple] = [
     ("json-example-escape-solidus-dropped", ["C17"], "examples/json/json.pest", "(\"\\\"\" | \"\\\\\" | \"/\" | \"b\"", "(\"\\\"\" | \"\\\\\" | \"b\"", "fire", "JSON-TREE"),
     ("S-json-example-boolean-reordered", ["C17"], "examples/json/json.pest", "boolean = { \"true\" | \"false\" }", "boolean = { \"false\" | \"true\" }", "silent", ""),
     ("S-json-example-empty-object-second", ["C17"], "examples/json/json.pest", "    \"{\" ~ \"}\" |\n    \"{\" ~ pair ~ (\",\" ~ pair)* ~ \"}\"", "    \"{\" ~ pair ~ (\",\" ~ pair)* ~ \"}\" |\n    \"{\" ~ \"}\"", "silent", ""),
-    ("pratt-prefix-max", ["C18"], PRATT, "            prec = self.PREFIX_OPS[token.name]", "            prec = max(self.PREFIX_OPS[token.name], min_prec)", "fire", "prefix"),
+    ("pratt-prefix-max", ["C18"], PRATT, "            prec = self.PREFIX_OPS[token.name]", "            prec = max(self.PREFIX_OPS[token.name], min_prec or 0)", "fire", "prefix"),
+    ("pratt-default-floor-zero", ["C18"], PRATT, "min_prec: int | None = None", "min_prec: int | None = 0", "fire", "PRATT"),
+    ("S-pratt-floor-sentinel", ["C18"], PRATT, "                if min_prec is not None and prec < min_prec:\n                    break\n                stream.next()\n                rhs", "                if not (min_prec is None or prec >= min_prec):\n                    break\n                stream.next()\n                rhs", "silent", ""),
     ("S-merge-branches-inverted", ["C12"], CHOICE, "        if not merged or s > merged[-1][1] + 1:\n            merged.append([s, e])\n        else:\n            merged[-1][1] = max(merged[-1][1], e)", "        if merged and s <= merged[-1][1] + 1:\n            merged[-1][1] = max(merged[-1][1], e)\n        else:\n            merged.append([s, e])", "silent", ""),
     ("S-order-overlap-ord-form", ["C02"], CHOICE, "        return a.start <= b.value[:1] <= a.end", "        first = b.value[:1]\n        return not (first < a.start or first > a.end)", "silent", ""),
     ("S-error-context-named-flag", ["C13"], EXC, "    lines = text.splitlines(keepends=True)\n    cumulative_length = 0", "    lines = text.splitlines(True)\n    cumulative_length = 0", "silent-or-undecided", ""),  # the edit is inside the slice a SAFE triage entry was written for: exit 2 (re-triage) is accepted
